@@ -13,21 +13,13 @@ import (
 
 	"pgregory.net/rapid"
 
+	"verif/harness/portres"
 	"verif/harness/tcpsim"
 	"verif/harness/vh"
 )
 
 type binCase struct {
 	Steps []step `json:"steps"` // the four requests, unknown types, malformed frames; a terminate is appended
-}
-
-func freePort() int {
-	l, err := net.Listen("tcp", "127.0.0.1:0")
-	if err != nil {
-		return 0
-	}
-	defer l.Close()
-	return l.Addr().(*net.TCPAddr).Port
 }
 
 func dialOK(addr string) bool {
@@ -37,6 +29,33 @@ func dialOK(addr string) bool {
 	}
 	c.Close()
 	return true
+}
+
+// adminServed: is an HTTP request to the admin address answered? A bare connect proves little: a listener that is being
+// closed still completes handshakes into its backlog until its accept loop has let go of the socket.
+// 1: answered; 0: refused, reset or closed without an answer; -1: cannot tell (time-out).
+func adminServed(addr string) int {
+	c, err := net.DialTimeout("tcp", addr, 5*time.Second)
+	if err != nil {
+		if ne, ok := err.(net.Error); ok && ne.Timeout() {
+			return -1
+		}
+		return 0
+	}
+	defer c.Close()
+	c.SetDeadline(time.Now().Add(5 * time.Second))
+	if _, err := c.Write([]byte("GET /config HTTP/1.0\r\nHost: x\r\n\r\n")); err != nil {
+		return 0
+	}
+	b := make([]byte, 16)
+	n, err := c.Read(b)
+	if n >= 5 && string(b[:5]) == "HTTP/" {
+		return 1
+	}
+	if ne, ok := err.(net.Error); ok && ne.Timeout() {
+		return -1
+	}
+	return 0
 }
 
 func echoOK(c net.Conn) bool {
@@ -73,7 +92,18 @@ func checkBinary(c binCase, dir string) (nt bool, v *verdict) {
 	var adminAddr, svcAddr string
 	var logf *os.File
 	for attempt := 0; attempt < 3; attempt++ {
-		adminPort, svcPort := freePort(), freePort()
+		// both ports stay reserved for this case (package portres): nobody else on the machine can be handed them, neither
+		// before the binary has bound them nor after it closed them (admin step, drain)
+		ra, err1 := portres.Reserve()
+		rs, err2 := portres.Reserve()
+		if err1 != nil || err2 != nil {
+			ra.Release()
+			rs.Release()
+			return false, nil
+		}
+		defer ra.Release()
+		defer rs.Release()
+		adminPort, svcPort := ra.Port, rs.Port
 		adminAddr, svcAddr = fmt.Sprintf("127.0.0.1:%d", adminPort), fmt.Sprintf("127.0.0.1:%d", svcPort)
 		host, port, _ := net.SplitHostPort(echo.Addr)
 		yaml := fmt.Sprintf(`admin:
@@ -155,11 +185,12 @@ static_services:
 		return false, &verdict{"service-not-working", fmt.Sprintf("the echo service behind the real binary does not work: %v", err)}
 	}
 	defer established.Close()
-	ctl, err := net.DialUnix("unix", nil, &net.UnixAddr{Name: fmt.Sprintf("@sam_domain_socket_%d", cmd.Process.Pid), Net: "unix"})
+	ctlAddr := &net.UnixAddr{Name: fmt.Sprintf("@sam_domain_socket_%d", cmd.Process.Pid), Net: "unix"}
+	ctl, err := net.DialUnix("unix", nil, ctlAddr)
 	if err != nil {
 		return false, &verdict{"control-socket", err.Error()}
 	}
-	defer ctl.Close()
+	defer func() { ctl.Close() }()
 	steps := append(append([]step{}, c.Steps...), step{Kind: "terminate"})
 	adminDown, drained := false, false
 	for i, st := range steps {
@@ -189,6 +220,19 @@ static_services:
 			if ok, why := alive(); !ok {
 				return nt, &verdict{"process-died", fmt.Sprintf("%s: the process died after a malformed frame: %s", where, why)}
 			}
+			// The next frame goes over a fresh control connection: on this one it could be appended to the read that took
+			// the malformed bytes and be parsed together with them (the socket is a stream, see checkSeq, which has the
+			// pause point to exclude that and keeps malformed and valid frames on one connection). The parent serves one
+			// child connection at a time and takes the next one when this one is closed.
+			ctl.Close()
+			nc, err := net.DialUnix("unix", nil, ctlAddr)
+			if err != nil {
+				if ok, why := alive(); !ok {
+					return nt, &verdict{"process-died", fmt.Sprintf("%s: the process died after a malformed frame: %s", where, why)}
+				}
+				return nt, &verdict{"control-socket", fmt.Sprintf("%s: cannot reconnect to the control socket: %v", where, err)}
+			}
+			ctl = nc
 			continue
 		}
 		ctl.SetReadDeadline(time.Now().Add(10 * time.Second))
@@ -231,11 +275,11 @@ static_services:
 		if ok, why := alive(); !ok {
 			return nt, &verdict{"process-died", fmt.Sprintf("%s: the process died before terminate was requested: %s", where, why)}
 		}
-		if adminDown && dialOK(adminAddr) {
-			return nt, &verdict{"admin-still-listening", where + ": the admin port still accepts connections after the admin step was acknowledged"}
+		if adminDown && adminServed(adminAddr) == 1 {
+			return nt, &verdict{"admin-still-listening", where + ": the admin API still answers requests after the admin step was acknowledged"}
 		}
-		if !adminDown && !dialOK(adminAddr) {
-			return nt, &verdict{"admin-stopped-early", where + ": the admin port stopped before it was requested"}
+		if !adminDown && adminServed(adminAddr) == 0 {
+			return nt, &verdict{"admin-stopped-early", where + ": the admin API stopped answering before it was requested"}
 		}
 		if drained {
 			if nc, err := net.DialTimeout("tcp", svcAddr, time.Second); err == nil {
